@@ -461,11 +461,7 @@ pub fn known_key(shape: &Shape, op: &Op, result: &str, f: &Fail) -> Option<&'sta
         Op::AddToFile(..) if ok && shape.lower_version && matches!(f.kind, "text-loads-with-warning" | "text-does-not-load") && f.detail.contains("not_allowed_in") => {
             Some("add-to-file-ignores-version")
         }
-        Op::Load(..) | Op::Duplicate(..) if ok && matches!(f.kind, "text-loads-with-warning" | "text-does-not-load") && f.detail.contains("SHORT-NAME_was_not_found") => {
-            Some("merge-loses-shortname-membership")
-        }
         Op::Load(..) | Op::Duplicate(..) if ok && matches!(f.kind, "not-in-parent") => Some("merge-membership-inconsistent"),
-        Op::Load(..) if !ok && matches!(f.kind, "foreign-file" | "view-differs-from-membership" | "element-in-no-file" | "not-in-parent") => Some("failed-load-stays-merged"),
         Op::AddToFile(..) | Op::RemoveFromFile(..) | Op::RemoveFile(..)
             if shape.shortname_local
                 && matches!(f.kind, "text-loads-with-warning" | "text-does-not-load" | "kept-although-only-in-removed-file" | "other-file-changed" | "loaded-differs-from-view") =>
